@@ -107,7 +107,9 @@ func srvKind(i int, uniform bool) int {
 	if uniform {
 		return 1
 	}
-	return i % 8
+	// (ordered so that the small ids the model uses meet every kind of request, also those without a payload in
+	// their reply: 1 stat, 2 clunk, 3 open, 4 read, 5 remove, 6 create, 7 wstat, 8 walk, 9 write, 10 attach, 0 auth)
+	return []int{0, 1, 8, 3, 4, 9, 6, 10, 2, 5, 7}[i%11]
 }
 
 // message for request id i: every one carries the id in its fid field
@@ -133,6 +135,12 @@ func srvMessage(i int, uniform bool) p9p.Message {
 		return p9p.MessageTcreate{Fid: f, Name: "n", Perm: 0644, Mode: p9p.OWRITE}
 	case 7:
 		return p9p.MessageTattach{Fid: f, Afid: p9p.NOFID, Uname: "u", Aname: "a"}
+	case 8:
+		return p9p.MessageTclunk{Fid: f}
+	case 9:
+		return p9p.MessageTremove{Fid: f}
+	case 10:
+		return p9p.MessageTwstat{Fid: f, Stat: p9p.Dir{Name: fmt.Sprint("w", i)}}
 	}
 	return p9p.MessageTauth{Afid: f, Uname: "u", Aname: "a"}
 }
@@ -169,9 +177,21 @@ func srvIDOf(m p9p.Message) int {
 var srvReadSizes = []int{0, p9p.DefaultMSize - 11, p9p.DefaultMSize - 12, p9p.DefaultMSize - 14, 100}
 
 // the result handler i returns: a reply of the matching type carrying i, or an error text for i%3==0
+// srvErr: the error handler i returns (every third handler fails): a plain error, a 9p error value, or an error that
+// wraps a 9p error - the client must be told the text of the error the handler returned, whatever it wraps
+func srvErr(i int) error {
+	switch (i / 3) % 3 {
+	case 1:
+		return p9p.MessageRerror{Ename: fmt.Sprintf("e%d", i)}
+	case 2:
+		return fmt.Errorf("e%d: %w", i, p9p.MessageRerror{Ename: "inner"})
+	}
+	return fmt.Errorf("e%d", i)
+}
+
 func srvResult(i int, uniform bool, sz int) (p9p.Message, error) {
 	if i%3 == 0 {
-		return nil, fmt.Errorf("e%d", i)
+		return nil, srvErr(i)
 	}
 	q := p9p.Qid{Path: uint64(i), Version: 9}
 	switch srvKind(i, uniform) {
@@ -195,6 +215,12 @@ func srvResult(i int, uniform bool, sz int) (p9p.Message, error) {
 		return p9p.MessageRcreate{Qid: q, IOUnit: 5}, nil
 	case 7:
 		return p9p.MessageRattach{Qid: q}, nil
+	case 8:
+		return p9p.MessageRclunk{}, nil
+	case 9:
+		return p9p.MessageRremove{}, nil
+	case 10:
+		return p9p.MessageRwstat{}, nil
 	}
 	return p9p.MessageRauth{Qid: q}, nil
 }
@@ -210,8 +236,17 @@ func srvClassify(fc *p9p.Fcall) (kind string, src int) {
 			return "unk", 0
 		case strings.HasPrefix(m.Ename, "e"):
 			var i int
-			if _, err := fmt.Sscanf(m.Ename, "e%d", &i); err == nil && fmt.Sprintf("e%d", i) == m.Ename {
-				return "err", i
+			if _, err := fmt.Sscanf(m.Ename, "e%d", &i); err == nil {
+				// the text must be exactly the text of the error handler i returned
+				want := srvErr(i)
+				wt := want.Error()
+				if me, ok := want.(p9p.MessageRerror); ok {
+					wt = me.Ename
+				}
+				if m.Ename == wt {
+					return "err", i
+				}
+				return "other", i
 			}
 		}
 		return "other", 0
@@ -239,6 +274,8 @@ func srvClassify(fc *p9p.Fcall) (kind string, src int) {
 		return srvCheck(int(m.Qid.Path), fc.Message)
 	case p9p.MessageRauth:
 		return srvCheck(int(m.Qid.Path), fc.Message)
+	case p9p.MessageRclunk, p9p.MessageRremove, p9p.MessageRwstat:
+		return "res", -1 // no payload: attributed to the request outstanding on the tag (and its kind checked) by the reader
 	}
 	return "other", 0
 }
@@ -265,6 +302,11 @@ func normMsg(m p9p.Message) p9p.Message {
 		s.Stat.ModTime = time.Time{}
 		return s
 	}
+	if w, ok := m.(p9p.MessageTwstat); ok {
+		w.Stat.AccessTime = time.Time{}
+		w.Stat.ModTime = time.Time{}
+		return w
+	}
 	return m
 }
 
@@ -283,7 +325,7 @@ func (h srvHandler) Handle(ctx context.Context, msg p9p.Message) (p9p.Message, e
 		r.gates[id] = gate
 	}
 	honour := r.honour[id]
-	r.log(srvEvent{E: "enter", ID: id, Match: known && reflect.DeepEqual(want, msg)})
+	r.log(srvEvent{E: "enter", ID: id, Match: known && reflect.DeepEqual(normMsg(want), normMsg(msg))})
 	r.mu.Unlock()
 	var done <-chan struct{}
 	if honour {
@@ -305,7 +347,7 @@ func (h srvHandler) Handle(ctx context.Context, msg p9p.Message) (p9p.Message, e
 	}
 	r.mu.Lock()
 	// the message belongs to the handler for as long as it runs: it must still be what was sent
-	if known && !reflect.DeepEqual(want, msg) && r.res != nil {
+	if known && !reflect.DeepEqual(normMsg(want), normMsg(msg)) && r.res != nil {
 		r.res.Violate("C06", "handler-message-changed-while-held", fmt.Sprintf("the message handed to the handler of request %d was %+v when it was invoked and reads %+v when it returns (later frames were received meanwhile)", id, want, msg),
 			map[string]interface{}{"engine": "serve", "scenario_run": r.sc})
 	}
@@ -416,6 +458,14 @@ func runSrvScenario(sc srvScenario, scn int, res *hx.Result) []srvEvent {
 			kind, src := srvClassify(fc)
 			t := int(fc.Tag)
 			r.mu.Lock()
+			if src == -1 {
+				// a reply without payload: it answers the request outstanding on its tag, if that is of the matching kind
+				src = r.cout[t]
+				want, err := srvResult(src, r.uniform, 0)
+				if src == 0 || err != nil || want.Type() != fc.Type {
+					kind = "other"
+				}
+			}
 			// client view
 			switch kind {
 			case "dup":
